@@ -29,7 +29,8 @@ def dstep (s : DSt) (toks : List String) : DSt × String :=
     match r with
     | ["arity", _] => (s, "ok")
     | ["hook", e, m] => let (x, o) := Events.stepLine s.ar ["hook", e, m, "sync"]; ({ s with ar := x }, o)
-    | ["hook", _, _, _] | ["new", _, "pool"] | ["new", _] | ["unhook", _] | ["trigger", _, _] | ["link", _, _] | ["unlink", _] | ["tcount", _] =>
+    | ["hook", e, m, "pre"] => let (x, o) := Events.stepLine s.ar ["hook", e, m, "sync", "pre"]; ({ s with ar := x }, o)
+    | ["hook", _, _, _] | ["hook", _, _, _, "pre"] | ["new", _, "pool"] | ["new", _, "pre"] | ["new", _, "pre", "pool"] | ["new", _] | ["unhook", _] | ["trigger", _, _] | ["link", _, _] | ["unlink", _] | ["tcount", _] =>
       let (x, o) := Events.stepLine s.ar r; ({ s with ar := x }, o)
     | _ => (s, "bad-op")
   | "pr" :: r => let (x, o) := Promise.stepLine s.pr r; ({ s with pr := x }, o)
